@@ -2,8 +2,9 @@
     (model of index/eval.go, matchtree.go, indexdata.go, matchiter.go, hititer.go at /repo HEAD incl. the word fast-path
     fix commits 260937d d7a2c44 cae2348). *)
 From ZV Require Import Lib.Base Model.SearchCore Model.SearchCoreIters Proofs.SearchCoreIters Proofs.SearchCoreText Proofs.SearchCoreTree Proofs.SearchCoreLoop
-  Proofs.SearchCoreSelect Proofs.SearchCoreBuild Proofs.SearchCoreSimp Proofs.SearchCoreWord Proofs.SearchCoreTop Proofs.SearchCoreSym Proofs.SearchCoreRf Proofs.SearchCoreDistill Proofs.SearchCoreEngine Proofs.SearchCoreRegexTie Proofs.SearchCoreAndLineOff.
-From ZV Require Model.Regex.
+  Proofs.SearchCoreSelect Proofs.SearchCoreBuild Proofs.SearchCoreSimp Proofs.SearchCoreWord Proofs.SearchCoreTop Proofs.SearchCoreSym Proofs.SearchCoreRf Proofs.SearchCoreDistill Proofs.SearchCoreEngine Proofs.SearchCoreRegexTie Proofs.SearchCoreAndLineOff
+  Model.SearchCoreSepLine Proofs.SearchCoreSepLine Proofs.SearchCoreSepLineGen.
+From ZV Require Model.Regex Generated.DistillSwitch.
 From Coq Require Import ZifyBool ZifyN.
 
 (** 1. Verified trigram candidates are exactly the occurrences: for every list of texts, every pattern of >= 3 runes,
@@ -307,6 +308,65 @@ Theorem C01_merging_iter_spec : forall (ls : list (list nat)), Forall inc ls ->
 Proof. exact merging_iter_spec. Qed.
 Print Assumptions C01_merging_iter_spec.
 
+(** 17. The singleLine decision of regexpToMatchTreeRecursive, over the FULL regexp AST of Model/Regex.v and against its
+    semantics [Regex.m] (= the executable [ends], C27_ends_exact).  A concatenation whose parts are all flagged singleLine is
+    searched with an andLineMatchTree, which drops every document whose literals do not share a line BEFORE the engine
+    runs - sound only if a flagged regexp cannot match across a newline.  [single_line tbl r] is the flag, with the set
+    [tbl] of star operand operators taken as same-line separators as a parameter (the code's own set is read from
+    index/eval.go by translator/c01distill in every run: Generated/DistillSwitch.v).
+    (a) for EVERY table of one-rune operators that cannot consume a newline: every position inside a match of a flagged
+        regexp lies on the line where the match starts (hypothesis on the fold orbit: '\n' folds to itself only); *)
+Theorem C01_single_line_flag_sound : forall (orbit : N -> list N), (forall r, ~ In 10%N (orbit r)) ->
+  forall (tbl : list String.string) (r : Regex.re) (t : list N) (i j : nat),
+  table_safe tbl = true -> single_line tbl r = true -> Regex.m orbit r t i j ->
+  forall o, i <= o -> o <= j -> line_of t o = line_of t i.
+Proof. intros orbit Ho tbl r t i j. exact (single_line_one_line orbit Ho tbl r t i j). Qed.
+Print Assumptions C01_single_line_flag_sound.
+(** (b) the shortcut for  lit1 SEP lit2 : whenever the separator is included in [^\n]* (every match of SEP is a match of
+        (?-s:.)* ), a match of the concatenation contains an occurrence of each literal, both on ONE line; *)
+Theorem C01_andline_sound : forall (orbit : N -> list N), (forall r, ~ In 10%N (orbit r)) ->
+  forall (sep : Regex.re) (f1 : bool) (l1 : list N) (f2 : bool) (l2 t : list N) (i j : nat),
+  (forall t i j, Regex.m orbit sep t i j -> Regex.m orbit (Regex.RStar Regex.RAnyNotNL) t i j) ->
+  memN 10 l1 = false -> memN 10 l2 = false ->
+  Regex.m orbit (Regex.RConcat [Regex.RLit f1 l1; sep; Regex.RLit f2 l2]) t i j ->
+  exists o1 o2, i <= o1 /\ o1 + length l1 <= o2 /\ o2 + length l2 = j /\
+    Regex.lit_m orbit f1 l1 t o1 (o1 + length l1) /\ Regex.lit_m orbit f2 l2 t o2 (o2 + length l2) /\ line_of t o1 = line_of t o2.
+Proof. intros orbit Ho sep f1 l1 f2 l2 t i j. exact (andline_sound orbit Ho sep f1 l1 f2 l2 t i j). Qed.
+Print Assumptions C01_andline_sound.
+(** (c) REFUTED for the dot-all star: with OpAnyChar in the table, foo(?s:.)*bar is flagged singleLine and matches the
+        whole of "foo\nbar" (ends = [7]), yet no occurrence of foo shares a line with an occurrence of bar - the
+        andLineMatchTree would drop the document.  (The table with OpAnyChar is not [table_safe].) *)
+Theorem C01_andline_dotall_refuted :
+  single_line tbl_dotall foo_dotall_bar = true /\
+  Regex.ends no_orbit foo_dotall_bar foo_nl_bar 0 = [7] /\
+  share_line [102; 111; 111]%N [98; 97; 114]%N foo_nl_bar = false /\
+  table_safe tbl_dotall = false.
+Proof. exact dotall_refuted. Qed.
+Print Assumptions C01_andline_dotall_refuted.
+(** (d) the CODE UNDER CHECK: the star operands that index/eval.go declares singleLine (Generated/DistillSwitch.v) form a
+        safe table - an obligation discharged by computation on the regenerated table - hence (a) holds for the code's flag; *)
+Theorem C01_code_star_separators_exclude_newline : table_safe (star_sl_ops DistillSwitch.star_rules) = true.
+Proof. exact code_star_table_safe. Qed.
+Print Assumptions C01_code_star_separators_exclude_newline.
+Theorem C01_code_single_line_flag_sound : forall (orbit : N -> list N), (forall r, ~ In 10%N (orbit r)) ->
+  forall (r : Regex.re) (t : list N) (i j : nat),
+  single_line (star_sl_ops DistillSwitch.star_rules) r = true -> Regex.m orbit r t i j ->
+  forall o, i <= o -> o <= j -> line_of t o = line_of t i.
+Proof. exact code_single_line_sound. Qed.
+Print Assumptions C01_code_single_line_flag_sound.
+(** (e) the tie to the rest of the model: the `switch r.Op` of the code (operators with a clause, the OpStar rule, the singleLine
+        expression of the OpLiteral clause, the final return) is the one that [distill] on the projected syntax [rx] was written against, and the singleLine result of
+        [distill] on the projection IS the decision over the full AST (all regexps, all tables). *)
+Theorem C01_code_switch_as_modelled :
+  switch_as_modelled DistillSwitch.handled_ops DistillSwitch.star_rules DistillSwitch.lit_single_line DistillSwitch.default_flags = true.
+Proof. exact code_switch_as_modelled. Qed.
+Print Assumptions C01_code_switch_as_modelled.
+Theorem C01_distill_single_line_is_ast_decision : forall (g : N -> list N) (c : corpus) (freq : bool -> bool -> tri -> N)
+  (tbl : list String.string) (cs fn : bool) (r : Regex.re),
+  snd (distill g c freq cs fn (proj tbl r)) = single_line tbl r.
+Proof. exact distill_single_line. Qed.
+Print Assumptions C01_distill_single_line_is_ast_decision.
+
 (** the frequency function used by the correspondence runner satisfies the frequency hypothesis *)
 Lemma count_freq_sound : forall orbit c fn cs g, count_freq orbit c fn cs g = 0%N -> post orbit (ix_tris c fn) cs g = [].
 Proof.
@@ -455,3 +515,25 @@ Example ex_gallop : next_file_index 57 0 [3; 3; 10; 20; 31; 40; 55; 57; 60; 72] 
 Proof. vm_compute. auto. Qed.
 Example ex_merge : mfirst [[5; 9]; []; [2; 7]] = Some 2 /\ mnext 5 [[5; 9]; []; [2; 7]] = [[9]; []; [7]].
 Proof. vm_compute. auto. Qed.
+
+(** singleLine over the full AST: (foo)+.*bar is flagged and matches "xfoofoo_bar" from 1 to 11 - all on line 0 of
+    "xfoofoo_bar\nbar"; foo(?s:.)*bar and foo[^a]*bar are not flagged under the code's table; the ASCII orbit never
+    contains the newline; the separator .{2,} = (?-s:.){2,} is included in (?-s:.)* *)
+Definition ex_re_full : Regex.re :=
+  Regex.RConcat [Regex.RPlus (Regex.RCapture (Regex.RLit false [102; 111; 111]%N)); Regex.RStar Regex.RAnyNotNL; Regex.RLit false [98; 97; 114]%N].
+Example ex_single_line : single_line (star_sl_ops DistillSwitch.star_rules) ex_re_full = true
+  /\ Regex.ends aorbit2 ex_re_full [120; 102; 111; 111; 102; 111; 111; 95; 98; 97; 114; 10; 98; 97; 114]%N 1 = [11]
+  /\ single_line (star_sl_ops DistillSwitch.star_rules) foo_dotall_bar = false
+  /\ single_line (star_sl_ops DistillSwitch.star_rules)
+       (Regex.RConcat [Regex.RLit false [102; 111; 111]%N; Regex.RStar (Regex.RClass [(0, 96); (98, 1114111)]%N); Regex.RLit false [98; 97; 114]%N]) = false
+  /\ proj (star_sl_ops DistillSwitch.star_rules) ex_re_full = ex_rx
+  /\ star_sl_ops DistillSwitch.star_rules = tbl_notnl.
+Proof. vm_compute. auto 10. Qed.
+Example ex_orbit_nl : forall r, ~ In 10%N (aorbit2 r).
+Proof.
+  intros r. unfold aorbit2. destruct ((65 <=? r) && (r <=? 90))%N eqn:E1; [simpl; lia|].
+  destruct ((97 <=? r) && (r <=? 122))%N eqn:E2; simpl; lia.
+Qed.
+Example ex_sep_included : forall orbit t i j,
+  Regex.m orbit (Regex.RRepeat 2 None Regex.RAnyNotNL) t i j -> Regex.m orbit (Regex.RStar Regex.RAnyNotNL) t i j.
+Proof. intros orbit t i j (n & _ & _ & H). exists n. exact H. Qed.
